@@ -602,7 +602,34 @@ def rule_prover_verifier_bases(ctx, cfg='prod-all'):
                  'the verifier raises the prover\'s bases, in the prover\'s order, to the responses that took the masks\' places', prog.bodies[pp].span,
                  fact={'prover_powers': len(P), 'verifier_powers': len(V), 'bases_without_counterpart': lost[:4], 'masks_and_responses_that_do_not_correspond': clash[:4]},
                  expected='same bases in the same order, one response per mask')
-    yield Ob('RF-O', 'cl03#prover-verifier-pairs', n >= 6, 'sigma-protocol prover / verifier pairs examined', '', fact=n, expected='>= 6', nontrivial=False)
+    # the transcripts the two sides hash (range proof: an array handed to a local transcript function): same length, the same parameter at every
+    # position that holds a parameter on both sides, no value listed twice
+    from flow import _array_literal_of
+    nt = 0
+    for pp, vp in PROVER_VERIFIER_PAIRS[:2]:
+        lists = []
+        for path in (pp, vp):
+            b = prog.bodies.get(path)
+            if b is None:
+                continue
+            fd = eng.fndep(path)
+            for bi, t in b.calls():
+                tg = local_target(eng, t) or ''
+                if tg.startswith('cl03::range_proof::') and t['args'] and tg.split('::')[-1] not in OPENING_PARAMS:
+                    ops = _array_literal_of(fd, t['args'][0])
+                    if ops and len(ops) >= 4:
+                        params = [b.local_name(q) for q in range(1, b.arg_count + 1)]
+                        lists.append([(nm_, nm_.split('.')[0] in params) for nm_ in (_operand_name(b, fd, o) for o in ops)])
+        if len(lists) != 2:
+            continue
+        nt += 1
+        P_, V_ = lists
+        dup = [x for x, _p in P_ if [y for y, _q in P_].count(x) > 1] + [x for x, _p in V_ if [y for y, _q in V_].count(x) > 1]
+        differ = [(i, a[0], c[0]) for i, (a, c) in enumerate(zip(P_, V_)) if a[1] and c[1] and a[0].split('.')[-1] != c[0].split('.')[-1]]
+        yield Ob('RF-O', '%s#transcript~%s' % (pp, vp.split('::')[-1]), len(P_) == len(V_) and not dup and not differ,
+                 'prover and verifier hash transcripts of the same length with the same parameters at the same positions and no value twice', prog.bodies[pp].span,
+                 fact={'prover': [x for x, _p in P_], 'verifier': [x for x, _p in V_], 'listed_twice': sorted(set(dup)), 'different_parameters': differ[:4]}, expected='position by position')
+    yield Ob('RF-O', 'cl03#prover-verifier-pairs', n >= 6, 'sigma-protocol prover / verifier pairs examined', '', fact={'pairs': n, 'transcript_pairs': nt}, expected='>= 6', nontrivial=False)
 
 
 def rule_key_member_roles(ctx, cfg='prod-all'):
@@ -641,6 +668,109 @@ def rule_key_member_roles(ctx, cfg='prod-all'):
     yield Ob('RF-B', 'cl03#key-member-roles', not bad, 'pk.b is used as a base (or handed on as one), pk.c as a factor', '',
              fact={'uses': n, 'other_uses': bad[:6]}, expected='b: base / argument / divm / transcript; c: factor / transcript')
     yield Ob('RF-B', 'cl03#key-member-uses', n >= 20, 'uses of pk.b / pk.c examined', '', fact=n, expected='>= 20', nontrivial=False)
+
+
+OPENING_PARAMS = {'proof_of_square': [('x', 'r_1', 'E')], 'proof_large_interval_specific': [('x', 'r', 'E')], 'proof_same_secret': [('x', 'r_1', 'E'), ('x', 'r_2', 'F')]}
+
+
+def _named_operands(b, fd, op, limit=200):
+    """(the named local an operand stands for, the named locals / parameters its defining expression reads directly) - the walk stops at every
+    named value, so `E_a_1 = g^(x_a_1^2) * h^r_a_1 mod n` reads {g, h, n, x_a_1, r_a_1} and not what x_a_1 was computed from"""
+    l0 = op['pl']['l'] if op.get('k') in ('copy', 'move') else None
+    for _ in range(6):
+        if l0 is None or b.locals[l0].get('name'):
+            break
+        ds = fd.defs.get(l0, [])
+        if len(ds) == 1 and ds[0][0] == 'assign' and ds[0][2]['rv'].get('k') == 'ref':
+            l0 = ds[0][2]['rv']['pl']['l']
+            continue
+        if len(ds) == 1 and ds[0][0] == 'assign' and ds[0][2]['rv'].get('k') in ('use', 'cast') and ds[0][2]['rv']['op'].get('k') in ('copy', 'move'):
+            l0 = ds[0][2]['rv']['op']['pl']['l']
+            continue
+        break
+    if l0 is None:
+        return None, set()
+    seen, names, st = set(), set(), [l0]
+    while st and len(seen) < limit:
+        l = st.pop()
+        if l in seen:
+            continue
+        seen.add(l)
+        n = b.locals[l].get('name')
+        if n and l != l0:
+            names.add(n)
+            continue
+        if fd.is_param(l):
+            continue
+        for kind, bi, x in fd.defs.get(l, []):
+            if kind == 'assign':
+                rv = x['rv']
+                for o in [rv.get('op'), rv.get('a'), rv.get('b')] + list(rv.get('ops') or []):
+                    if isinstance(o, dict) and o.get('k') in ('copy', 'move'):
+                        st.append(o['pl']['l'])
+                if rv.get('pl'):
+                    st.append(rv['pl']['l'])
+            elif kind == 'call':
+                for o in x['args']:
+                    if o.get('k') in ('copy', 'move'):
+                        st.append(o['pl']['l'])
+    return b.locals[l0].get('name'), names
+
+
+def rule_opening_triples(ctx, cfg='prod-all'):
+    """A sub-prover of the range proof is handed a value, a randomness and the commitment `g^value * h^randomness` they open.  Where the commitment
+    is computed in the calling function (it is a local there, not a parameter handed through), the expression that defines it reads exactly that
+    value and that randomness, and both bases the sub-prover is given.  `proof_of_square(&x_a_2, &r_a_1, .., &E_a_1)` with E_a_1 made from x_a_1, or
+    E_a_1 made with `h` twice, pairs a sub-proof with a commitment it does not open: the honest proof stops verifying."""
+    prog, eng = ctx.prog(cfg), ctx.eng(cfg)
+    n = 0
+    for p, b in sorted(prog.bodies.items()):
+        if not p.startswith('cl03::range_proof::') or b.kind == 'Closure' or b.from_expansion:
+            continue
+        fd = eng.fndep(p)
+        k_site = {}
+        for bi, t in b.calls():
+            tgt = local_target(eng, t) or ''
+            short = tgt.split('::')[-1]
+            if short not in OPENING_PARAMS or tgt not in prog.bodies:
+                continue
+            cb = prog.bodies[tgt]
+            for (px, pr, pe) in OPENING_PARAMS[short]:
+                kx, kr, ke = cb.param_index(px), cb.param_index(pr), cb.param_index(pe)
+                if None in (kx, kr, ke) or max(kx, kr, ke) > len(t['args']):
+                    continue
+                ename, reads = _named_operands(b, fd, t['args'][ke - 1])
+                el = t['args'][ke - 1]['pl']['l'] if t['args'][ke - 1].get('k') in ('copy', 'move') else None
+                if ename is None or ename in [b.local_name(q) for q in range(1, b.arg_count + 1)] or not reads:
+                    continue        # the commitment is handed through from the caller's caller: judged where it is computed
+                nx, nr = _operand_name(b, fd, t['args'][kx - 1]), _operand_name(b, fd, t['args'][kr - 1])
+                # an intermediate that is a function of one named value only (`x_sq = x * x`) stands for that value
+                for _round in range(2):
+                    for nm_ in sorted(reads):
+                        if nm_ in (nx, nr):
+                            continue
+                        ls_ = [i_ for i_, lc_ in enumerate(b.locals) if lc_.get('name') == nm_ and not fd.is_param(i_)]
+                        if len(ls_) != 1:
+                            continue
+                        _n2, r2 = _named_operands(b, fd, {'k': 'copy', 'pl': {'l': ls_[0]}})
+                        if len(r2) == 1:
+                            reads = (reads - {nm_}) | r2
+                bases = []
+                for bn in ('g', 'h', 'g_1', 'h_1', 'g_2', 'h_2'):
+                    kb = cb.param_index(bn)
+                    if kb is not None and kb <= len(t['args']):
+                        bases.append(_operand_name(b, fd, t['args'][kb - 1]))
+                idx = k_site.get((short, pe), 0)
+                k_site[(short, pe)] = idx + 1
+                n += 1
+                okv = nx in reads and nr in reads
+                # the two bases of *this* commitment: for proof_same_secret the pair that goes with E (g_1, h_1) or with F (g_2, h_2)
+                pair = bases[:2] if pe != 'F' else bases[2:4]
+                okb = len(set(pair)) == 2 and all(x in reads for x in pair) if pair else True
+                yield Ob('RF-J', '%s#opens:%s(%s)@%d' % (p, short, pe, idx), okv and okb,
+                         'the commitment handed to the sub-prover is computed from the value and the randomness handed over with it, over the two bases handed over', '%s L%s' % (b.file(), t.get('line')),
+                         fact={'commitment': ename, 'its_expression_reads': sorted(reads)[:8], 'value': nx, 'randomness': nr, 'bases': pair}, expected='reads value, randomness and both bases')
+    yield Ob('RF-J', 'cl03::range_proof#opening-triples', n >= 4, 'sub-prover calls with a locally computed commitment examined', '', fact=n, expected='>= 4', nontrivial=False)
 
 
 PAYLOAD_ADAPTERS = ('::map', '::and_then', '::map_or', '::map_or_else', '::inspect', '::into_iter', '::iter', '::unwrap_or', '::unwrap_or_default', '::unwrap_or_else')
